@@ -38,9 +38,12 @@ def run(prop, prop_file, specs, oracles, trusted, rule, extra=None, level="proof
     diffs_all = []
     for si, spec in enumerate(specs):
         n = spec["n_thorough"] if tier == "thorough" else spec["n_quick"]
-        prof = dict(sweep.PROFILES[spec["profile"]]) if isinstance(spec["profile"], str) else dict(spec["profile"])
+        prof = dict(sweep.PROFILES[spec["profile"]]) if isinstance(spec.get("profile"), str) else dict(spec.get("profile") or {})
         prof["tag"] = "%s%d_" % (prof.get("tag", "c"), si)
-        cases, metas = sweep.make_cases(seed * 1000 + si, n, prof, defaults, methods=spec.get("methods"))
+        if spec.get("builder"):
+            cases, metas = spec["builder"](seed * 1000 + si, n, defaults, "g%d_" % si)
+        else:
+            cases, metas = sweep.make_cases(seed * 1000 + si, n, prof, defaults, methods=spec.get("methods"))
         if spec.get("full"):
             cases = [c + " full=1" for c in cases]
         if spec.get("isolated"):
@@ -93,8 +96,14 @@ def run(prop, prop_file, specs, oracles, trusted, rule, extra=None, level="proof
                               key="%s:%s" % (meta["method"], key))
             if cid in diff_ids and not fired:
                 diffs_all.append((cid, line, [d for d in df if d[0] == cid][0][2], meta))
-        if extra:
-            pass
+        if spec.get("group_oracle"):
+            parsed = {harness.case_id(l): gen.parse_result(impl.get(harness.case_id(l), [])) for l in cases}
+            lines = {harness.case_id(l): l for l in cases}
+            for cid, key, msg in spec["group_oracle"](metas, parsed):
+                found_any = True
+                rep.violation({"property": prop, "case": lines.get(cid), "meta": metas[cid][0], "observed": msg,
+                               "impl_result": impl.get(cid, [])[:12]}, found=True,
+                              key="%s:%s" % (metas[cid][0]["method"], key))
     ctx = {"defaults": defaults, "seed": seed, "tier": tier}
     if extra:
         n_extra, nt_extra = extra(rep, ctx)
